@@ -1,5 +1,6 @@
 """C02 — a matching value never fails the assertion."""
 import likestream
+import userlike
 import semprops
 
 
@@ -16,6 +17,7 @@ def run(res):
                     res.violation("failing-input", "the value satisfies the pattern but the assertion failed with %s"
                                   % (semprops.semstage.real_entries(c),), {"case": semprops.describe(c), "value_model": c["value_model"]})
     likestream.run(res, "complete")
+    failing += userlike.run(res, "complete")
     semprops.finish(res, "C02", cases, bad, sem_dis, na, nc, failing, matching,
                     "the shared semantic corpus (see C01); fields are listed in shuffled order, repeated, omitted under `..`; empty "
                     "collections, boundary values, sets needing backtracking; non-trivial = triples the specification says match",
@@ -23,4 +25,9 @@ def run(res):
 
 
 def replay(res, path):
+    import json
+    if json.load(open(path)).get("user_like_program"):
+        n = userlike.run(res, "complete")
+        print("user-Like programs re-run:", "violation" if n else "property holds on these inputs")
+        return 1 if n else 0
     return semprops.replay_case(path)
